@@ -67,7 +67,7 @@ func cmdFunc(args []string) {
 		if ct != nil && (ct.Kind == "extern" || ct.Kind == "iface" || ct.Trusted) {
 			continue
 		}
-		frs = append(frs, p.verifyFunc(n))
+		frs = append(frs, p.verifyFuncViews(n)...)
 	}
 	dischargeAll(frs, dir, *timeout, runtime.NumCPU(), nil)
 	bad := 0
